@@ -185,14 +185,19 @@ def join_program(secs):
     return " ".join(" ".join(h + [t for o in ops for t in o]) for h, ops in secs)
 
 
-def shrink(line, still_fails, max_rounds=6):
-    """greedy one-at-a-time removal of ops until no single removal keeps the failure"""
+def shrink(line, still_fails, max_rounds=6, budget_s=45.0):
+    """greedy one-at-a-time removal of ops until no single removal keeps the failure (or the time
+    budget is spent: the result is then a smaller, not a minimal, failing program)"""
+    import time
+    deadline = time.time() + budget_s
     secs = split_program(line)
     for _ in range(max_rounds):
         changed = False
         for si in range(len(secs)):
             oi = 0
             while oi < len(secs[si][1]):
+                if time.time() > deadline:
+                    return join_program(secs)
                 cand = [(h, list(ops)) for h, ops in secs]
                 del cand[si][1][oi]
                 cl = join_program(cand)
